@@ -111,11 +111,11 @@ a_real a_mf_lins(a_real x, a_real a, a_real b)
     {
         x = 0;
     }
-    else if (x > b)
+    else if (x >= b)
     {
         x = 1;
     }
-    else /* a <= x <= b */
+    else /* a <= x < b */
     {
         x = (x - a) / (b - a);
     }
@@ -128,11 +128,11 @@ a_real a_mf_linz(a_real x, a_real a, a_real b)
     {
         x = 1;
     }
-    else if (x > b)
+    else if (x >= b)
     {
         x = 0;
     }
-    else /* a <= x <= b */
+    else /* a <= x < b */
     {
         x = (b - x) / (b - a);
     }
